@@ -247,7 +247,13 @@ pub fn ty_strategy(cfg: GenCfg) -> BoxedStrategy<Ty> {
 }
 
 pub fn fields_strategy(cfg: GenCfg, max: usize) -> impl Strategy<Value = Vec<Fld>> {
-    prop::collection::vec((field_name_strategy(), ty_strategy(cfg), comments_strategy(cfg.comments)), 0..=max).prop_map(|fs| {
+    let one = move || (field_name_strategy(), ty_strategy(cfg), comments_strategy(cfg.comments));
+    // mostly short lists; one in seven is long (renderers may lay long lists out differently)
+    prop_oneof![
+        6 => prop::collection::vec(one(), 0..=max),
+        1 => prop::collection::vec(one(), max + 1..=max + 6),
+    ]
+    .prop_map(|fs| {
         dedup_names(fs.into_iter().map(|(name, ty, comments)| Fld { name, ty, comments }).collect(), |f| f.name.clone(), |f, n| f.name = n)
     })
 }
@@ -256,7 +262,10 @@ pub fn member_strategy(cfg: GenCfg) -> impl Strategy<Value = Member> {
     prop_oneof![
         3 => (type_name_strategy(), fields_strategy(cfg, 4), comments_strategy(cfg.comments))
             .prop_map(|(name, f, comments)| Member::Type { name, body: Body::Struct(f), comments }),
-        2 => (type_name_strategy(), prop::collection::vec((field_name_strategy(), comments_strategy(cfg.comments)), 1..5), comments_strategy(cfg.comments))
+        2 => (type_name_strategy(), prop_oneof![
+                6 => prop::collection::vec((field_name_strategy(), comments_strategy(cfg.comments)), 1..5),
+                1 => prop::collection::vec((field_name_strategy(), comments_strategy(cfg.comments)), 5..11),
+            ], comments_strategy(cfg.comments))
             .prop_map(|(name, vs, comments)| Member::Type { name, body: Body::Enum(dedup_names(
                 vs.into_iter().map(|(name, comments)| Var { name, comments }).collect(), |v| v.name.clone(), |v, n| v.name = n)), comments }),
         4 => (type_name_strategy(), fields_strategy(cfg, 3), fields_strategy(cfg, 3), comments_strategy(cfg.comments))
